@@ -55,10 +55,14 @@ def r_forward_ingest(ctx, db, est, max_items=3, state_assume=None, ctor_args=Non
             fsite = R.fn_site(db, fp)
             item_s = imp["trait_args"][0]["s"] if imp.get("trait_args") else "?"
 
-            def setup(m, f=f, fp=fp, kind=kind):
+            def setup(m, f=f, fp=fp, kind=kind, imp=imp):
                 alg = Alg(m, est)
                 src_ty = f["locals"][f["arg_count"]]["ty"]
                 src = VOpaque(src_ty, "input")
+                # the impl's own trait argument is the item type of its input, also where the items
+                # are drawn inside a generic helper that only sees `I::Item`
+                if imp.get("trait_args"):
+                    m.iter_item_ty = {"input": imp["trait_args"][0]}
                 if kind == "extend":
                     recv = alg.sym("self", nmin=0)
                     if state_assume:
